@@ -15,7 +15,10 @@ PKGS=$(git diff --name-only | xargs -n1 dirname | sort -u | sed 's#^#./#')
 T=$(go test -vet=off -count=1 $PKGS 2>&1 | grep -v "no test files" | grep -vc "^ok")
 echo "suite of changed packages ($PKGS): non-ok lines = $T"
 for q in "$@"; do
+  # the evidence file is rewritten by every run: keep the one from the quiet run on the unchanged tree
+  [ -f /verif/evidence/$q.json ] && cp /verif/evidence/$q.json /tmp/try_patch_ev_$q.json
   OUT=$(cd /verif && ./run.sh "$q" quick 2>&1); RC=$?
   echo "$OUT" | grep -E "^VIOLATION" | cut -c1-260 | head -4
   if [ $RC -ne 0 ] && echo "$OUT" | grep -q "^VIOLATION property=$q "; then echo "MUTANT $(basename $(dirname $PATCH))/$(basename $PATCH) $q detected"; else echo "MUTANT $(basename $(dirname $PATCH))/$(basename $PATCH) $q MISSED"; fi
+  [ -f /tmp/try_patch_ev_$q.json ] && mv /tmp/try_patch_ev_$q.json /verif/evidence/$q.json
 done
